@@ -1,7 +1,7 @@
 (* C02 - The output is exactly the transitive closure of the inputs.  Statements and `exact` only. *)
 From Coq Require Import List String Bool NArith.
 From RC Require Import lib.Pep440 lib.Name model.Merge model.Graph model.Solver model.Explain model.Check
-                       proofs.CheckP proofs.ReachP proofs.WitnessSolver proofs.SolverStatements proofs.SolvedP.
+                       proofs.CheckP proofs.ReachP proofs.WitnessSolver proofs.SolverStatements proofs.SolvedP proofs.ClosedP.
 Import ListNotations.
 Open Scope string_scope.
 
@@ -37,6 +37,24 @@ Theorem C02_success_leaves_no_required_project_unsolved :
   forall id, In id (visit_nodes g roots) -> unsolved g id = false.
 Proof. exact compile_success_all_required_solved. Qed.
 Print Assumptions C02_success_leaves_no_required_project_unsolved.
+
+(* CLOSURE, for EVERY run: the graph a successful compile returns is closed - every node reachable from the inputs is
+   solved and every link of an input or of a reachable node leads to a reachable node - and the traversal that selects what
+   is written out returns EXACTLY the reachable set (the fuel of the worklist suffices: every link points into the heap,
+   an invariant of every add_dist and remove_dists), with or without constraint files (ClosedP). *)
+Theorem C02_every_success_is_closed :
+  forall fuel e u inputs cons rc md ob_all ob extras g roots,
+  cons = None \/ rc = true ->
+  perform_compile_stack_x fuel e u inputs cons rc md ob_all ob extras = COk g roots -> closed g roots.
+Proof. exact compile_success_closed. Qed.
+Print Assumptions C02_every_success_is_closed.
+
+Theorem C02_traversal_exact_for_every_success :
+  forall fuel e u inputs cons rc md ob_all ob extras g roots,
+  perform_compile_stack_x fuel e u inputs cons rc md ob_all ob extras = COk g roots ->
+  forall x, In x (visit_nodes g roots) <-> reach g roots x.
+Proof. exact compile_success_visit_exact. Qed.
+Print Assumptions C02_traversal_exact_for_every_success.
 
 (* ... and when that final check fails, the failure names the merged constraints of a required, unsolved project *)
 Theorem C02_final_check_failure_is_located :
